@@ -50,5 +50,15 @@ OptsCore == {Oa("AddLayer", ""), Oi("RmIndex", 0), Oi("RmIndex", 1), Os("RmCreat
              Oa("StripFile", "l2"), Oa("StripFile", "l1/data.txt"), Oa("StripFile", "nosuch"), Oa("LayerTime", "set"),
              Oa("Compress", "zstd"), Oa("LayerDigest", "sha512"), Oa("BuildArgRm", "a1"), O("Rebase"), Oa("Data", "all"),
              Oav("Label", "x", "y")}
+OptsCoreQ == {Oa("AddLayer", ""), Oi("RmIndex", 0), Oi("RmIndex", 1), Os("RmCreatedBy", {"L1", "L3"}, "^ADD L(1|3)$"),
+              Oa("StripFile", "l2"), Oa("StripFile", "nosuch"), Oa("LayerTime", "set"), Oa("Compress", "zstd"),
+              Oa("BuildArgRm", "a1"), O("Rebase")}
+ImagesData == {Img(2, <<"L", "E", "L">>, sh, "oci", "gzip", TRUE, FALSE) : sh \in {"image", "index"}}
+\* minimal programs that show each known defect of the code as it is (C13_mc_asis_*.cfg)
+OptsAsisData == {Oa("Data", "all")}
+OptsAsisWriter == {Oa("Compress", "zstd"), Oa("LayerTime", "set")}
+OptsAsisAdded == {Oa("AddLayer", ""), Oa("StripFile", "nosuch")}
+OptsAsisTag == {Oa("Data", "keep")}
+OptsAsisClose == {Oa("LayerDigest", "sha512"), Oa("Compress", "zstd")}
 AllPlaces == {"same-digest", "same-tag", "same-replace", "cross"}
 =============================================================================
